@@ -250,17 +250,17 @@ const (
 
 // zzC06Env wires the three built-ins to one invocation counter and fault schedule.
 type zzC06Env struct {
-	tag    string
-	k      *zzC06K
-	c0     uint32
-	con    zzC06Construct
-	calls  int
-	at     int // invocation index of the fault (>= calls made: none)
-	fault  int
-	lockOK bool // every invocation saw itercount == c0 + depth
-	rejOK  bool // every mutator attempted under a lock failed
-	sameOK bool // ... and left K unchanged
-	attempts int // remaining invocations at which the mutator battery is tried
+	tag      string
+	k        *zzC06K
+	c0       uint32
+	con      zzC06Construct
+	calls    int
+	at       int // invocation index of the fault (>= calls made: none)
+	fault    int
+	lockOK   bool // every invocation saw itercount == c0 + depth
+	rejOK    bool // every mutator attempted under a lock failed
+	sameOK   bool // ... and left K unchanged
+	attempts int  // remaining invocations at which the mutator battery is tried
 }
 
 func (e *zzC06Env) builtin(name string, depth uint32) *Builtin {
